@@ -1,4 +1,6 @@
 #include "gen.hpp"
+#include <malloc.h>
+#include <limits>
 #include <cxxabi.h>
 #include <algorithm>
 
@@ -243,7 +245,21 @@ void Gen::fill(char* s, size_t n) {
 				return;
 			}
 			case FieldKind::Float: {
-				if (n == 4) { float f = nicef(); put(&f, 4, o); }
+				if (n == 4) {
+					float f = nicef();
+					// scalar members of the block object itself (not elements of its arrays) occasionally hold a floating point special:
+					// such fields gate optional sections in a few block types (e.g. a value equal to FLT_MAX announces a further field)
+					if (obj && lastAddr && rng.below(12) == 0) {
+						const char* o0 = reinterpret_cast<const char*>(dynamic_cast<void*>(obj));
+						const char* a = reinterpret_cast<const char*>(lastAddr);
+						size_t osz = malloc_usable_size(const_cast<char*>(o0));
+						if (a >= o0 && a < o0 + osz) {
+							static const float SPECIAL[] = {std::numeric_limits<float>::infinity(), -std::numeric_limits<float>::infinity(), 3.4028235e38f, -3.4028235e38f, 1.17549435e-38f, -0.0f};
+							f = SPECIAL[rng.below(6)];
+						}
+					}
+					put(&f, 4, o);
+				}
 				else { double d = nicef(); put(&d, 8, o); }
 				return;
 			}
